@@ -2,7 +2,8 @@
    over the box model of C01.  Each is closed by `exact <lemma>` and followed by Print Assumptions. *)
 From V.lib Require Import Base.
 From V.c01 Require Import C01Codec C01Model.
-From V.c02 Require Import C02Proofs C02Witness.
+From V.c01 Require Import C01Witness C01RealFiles C01RealWitness.
+From V.c02 Require Import C02Proofs C02Witness C02DecProofs.
 
 (* per leaf kind (all 14 value shapes at once): the bytes the encoder writes are Size() many, under the guard
    leaf_size_guard (4-character names, counts below 2^32; no version is excluded any more) *)
@@ -36,6 +37,36 @@ Theorem C02_encode_ok : forall t enc, size_ok t = true -> raw_box false t = Ok e
   encode_w t = Ok enc /\ encode_sw t = Ok enc.
 Proof. exact encode_ok. Qed.
 Print Assumptions C02_encode_ok.
+
+(* "every structure obtained from the decoder": NO hypothesis on the tree.  For every slice the model of DecodeBoxSR accepts
+   (whatever follows the box) with an exact tree -- the header seen at decode is the one Size() gives, the guarded trun /
+   senc / esds / wvtt / dac3 / dec3 forms; exact_box is evaluated on every correspondence case of a run -- the property holds
+   at EVERY node: the encoder succeeds, writes Size() bytes, and the size field it writes first is Size().  What size_ok
+   asks of a tree in C02_tree (4-character names, counts and sizes below 2^32, below 2^64 for a large header) is here an
+   invariant of the decoder: it follows from dec_hdr and C01's fixed-point induction over the decoder's recursion. *)
+Theorem C02_decoded :
+  (forall bs t rest, bytes_ok bs = true -> decode bs = Ok (t, rest) -> exact_box t = true -> every node_ok t) /\
+  (* ... and both API paths (Encode with its per-box writers, EncodeSW into one writer of Size() bytes) succeed on it with the
+     same Size() bytes, which are as many as the decoder consumed *)
+  (forall bs t rest, bytes_ok bs = true -> decode bs = Ok (t, rest) -> exact_box t = true ->
+     exists enc, encode_w t = Ok enc /\ encode_sw t = Ok enc /\ lenN enc = size_box t /\ hdr_size_field enc = size_box t /\
+                 lenN enc + lenN rest = lenN bs) /\
+  (* the box loop of DecodeFileSR: every node of every top-level box of a decoded file *)
+  (forall bs ts, bytes_ok bs = true -> decode_file bs = Ok ts -> forallb exact_box ts = true -> Forall (every node_ok) ts).
+Proof. exact (conj decoded_tree (conj decoded_tree_api decoded_file)). Qed.
+Print Assumptions C02_decoded.
+(* (one theorem with three parts: each Print Assumptions over C01's fixed-point closure costs ~12 s of the quick tier) *)
+
+Example C02_ex_decoded :
+  bytes_ok (ex_moof_bytes ++ [0; 0; 0; 9]) = true /\ decode (ex_moof_bytes ++ [0; 0; 0; 9]) = Ok (ex_moof_tree, [0; 0; 0; 9]) /\
+  exact_box ex_moof_tree = true /\
+  bytes_ok w_unknown_large = true /\ decode w_unknown_large = Ok (treeof w_unknown_large, []) /\
+  exact_box (treeof w_unknown_large) = true.
+Proof. exact ex_decoded_ok. Qed.
+Example C02_ex_decoded_file :
+  bytes_ok rf_media_seg = true /\ decode_file rf_media_seg = Ok (seq_of rf_media_seg) /\
+  forallb exact_box (seq_of rf_media_seg) = true /\ map box_name (seq_of rf_media_seg) = [n_styp; n_sidx; n_moof; n_mdat].
+Proof. exact ex_decoded_file_ok. Qed.
 
 (* the encoders are functions of the tree: encoding twice gives identical bytes (the model has no state;
    the Go side of this claim -- Size() mutating LargeSize, Info -- is checked by the harness histories) *)
